@@ -76,10 +76,15 @@ func (i *Interp) slice(instr *ssa.Slice, x, lo, hi, max value) value {
 // boundsCheck forks on a symbolic index being within [0,n).
 func (i *Interp) boundsCheck(idx *Term, signed bool, n int) {
 	tt := i.ex.tt
-	var in *Term
-	// unsigned comparison handles negative signed values too
-	in = tt.Ult(idx, tt.Const(uint64(n), idx.w))
-	_ = signed
+	in := tt.tru
+	if signed {
+		in = tt.Sle(tt.Const(0, idx.w), idx)
+		if idx.w == 64 || uint64(n) <= mask(idx.w-1) {
+			in = tt.And(in, tt.Slt(idx, tt.Const(uint64(n), idx.w)))
+		}
+	} else if idx.w == 64 || uint64(n) <= mask(idx.w) {
+		in = tt.Ult(idx, tt.Const(uint64(n), idx.w))
+	}
 	if !i.truth(untermKind(types.Bool, in)) {
 		panic(i.rtPanic(fmt.Sprintf("index out of range [symbolic] with length %d", n)))
 	}
